@@ -377,9 +377,14 @@ def call_op(w, op):
     raise ValueError(f"unknown op kind {kind}")
 
 
-def run_op(w, op, inject_k=None, count=False, info=None):
+WARN_ERROR_MODULES = r"(xgcm|xsim)(\.|$)"
+
+
+def run_op(w, op, inject_k=None, count=False, info=None, warn=None):
     """Returns (outcome, lines, fired_at).  ``info`` (dict) receives the dirty
-    line events of a counting run."""
+    line events of a counting run.  ``warn="error"``: warnings attributed to xgcm (or to its caller, for
+    warnings issued with a stacklevel) are escalated to exceptions, as under ``python -W error`` or a
+    pytest ``filterwarnings = error`` configuration - every warning site becomes a point where a call can raise."""
     tracer = None
     if inject_k is not None:
         tracer = LineFault(inject_k)
@@ -388,6 +393,8 @@ def run_op(w, op, inject_k=None, count=False, info=None):
     try:
         with warnings.catch_warnings():
             warnings.simplefilter("ignore")
+            if warn == "error":
+                warnings.filterwarnings("error", module=WARN_ERROR_MODULES)
             if tracer:
                 with tracer:
                     res = call_op(w, op)
@@ -400,6 +407,8 @@ def run_op(w, op, inject_k=None, count=False, info=None):
         out = {"injected": True}
     except Exception as e:  # noqa
         out = {"exc": type(e).__name__}
+        if isinstance(e, Warning):
+            out["escalated_warning"] = True
     if info is not None and tracer is not None:
         info["dirty"] = list(tracer.dirty)
     return out, (tracer.n if tracer else None), (tracer.fired_at if tracer else None)
@@ -412,7 +421,7 @@ class Counters:
                   "fault_refused_fired": 0, "fault_user_raise_fired": 0,
                   "fault_injected_fired": 0, "fault_injected_missed": 0,
                   "shared_object_reuse": 0, "fresh_runs": 0, "snapshots": 0, "fault_injected_at_dirty_line": 0,
-                  "canary_ops_compared": 0}
+                  "canary_ops_compared": 0, "fault_warning_escalated_fired": 0}
         self.opkinds = {}
 
     def inc(self, k, n=1):
@@ -430,6 +439,7 @@ def execute(spec, cnt=None):
     cnt.inc("snapshots")
     fresh_cache = {}
     outcomes = []
+    warn = spec.get("warn")
     for si, op in enumerate(spec["ops"]):
         cnt.inc("steps")
         cnt.opkinds[_opname(op)] = cnt.opkinds.get(_opname(op), 0) + 1
@@ -439,14 +449,14 @@ def execute(spec, cnt=None):
             fw = build_world(ws)
             want_count = (op.get("fault") or {}).get("kind") == "inject"
             finfo = {}
-            fo, lines, _ = run_op(fw, op["call"], count=want_count, info=finfo)
+            fo, lines, _ = run_op(fw, op["call"], count=want_count, info=finfo, warn=warn)
             fresh_cache[opkey] = (fo, lines, finfo.get("dirty"))
             cnt.inc("fresh_runs")
         fresh_out, fresh_lines, dirty = fresh_cache[opkey]
         if (op.get("fault") or {}).get("kind") == "inject" and fresh_lines is None:
             fw = build_world(ws)
             finfo = {}
-            fo, fresh_lines, _ = run_op(fw, op["call"], count=True, info=finfo)
+            fo, fresh_lines, _ = run_op(fw, op["call"], count=True, info=finfo, warn=warn)
             dirty = finfo.get("dirty")
             fresh_cache[opkey] = (fresh_out, fresh_lines, dirty)
         fault = op.get("fault") or {}
@@ -459,7 +469,9 @@ def execute(spec, cnt=None):
                 cnt.inc("fault_injected_at_dirty_line")
             else:
                 k = 1 + int(fault["frac"] * (fresh_lines - 1))
-        out, _, fired_at = run_op(w, op["call"], inject_k=k)
+        out, _, fired_at = run_op(w, op["call"], inject_k=k, warn=warn)
+        if out.get("escalated_warning"):
+            cnt.inc("fault_warning_escalated_fired")
         tag = "ok" if "ok" in out else ("injected" if "injected" in out else "exc:" + out["exc"])
         outcomes.append(tag)
         if "ok" in out:
@@ -760,6 +772,11 @@ def gen_op(rng, ws, info):
         src = rng.choice(["c", "u"])
         ax = "X" if src == "u" else rng.choice(axn)
         kw = bkw({})
+        if info["has_z"] and not faces and rng.random() < 0.25:
+            # along Z (center / outer): outer -> center needs no padding at all, so the kernel is handed the
+            # caller's own buffer; center -> outer pads on both sides
+            src = rng.choice(["td_o", "td_o", "td_c"])
+            return {"op": "method", "grid": g, "name": name, "pos": [{"$a": idx[src]}, "Z"], "kw": kw}
         if src == "c" and rng.random() < 0.4:
             kw["to"] = _maybe_shared(rng, info, rng.choice(["to_center_src", "to_partial"]), "left")
         return {"op": "method", "grid": g, "name": name, "pos": [{"$a": idx[src]}, ax], "kw": kw}
@@ -975,7 +992,11 @@ def make_case(seed_i, tier):
             call2["func"] = "raises"
             op = {"call": call2, "fault": {"kind": "user_raise"}}
         ops.append(op)
-    return {"world": ws, "ops": ops}
+    spec = {"world": ws, "ops": ops}
+    if frng.random() < 0.12:
+        # fault kind: warnings escalated to exceptions for the whole history (fresh reference runs included)
+        spec["warn"] = "error"
+    return spec
 
 
 def refs_in(x, acc):
@@ -1004,10 +1025,10 @@ def shape_and_trivia(spec, outcomes):
             if r in seen:
                 shared += 1
             seen.add(r)
-    has_fault = any(op.get("fault") for op in spec["ops"])
+    has_fault = any(op.get("fault") for op in spec["ops"]) or bool(spec.get("warn"))
     shape = core.digest([spec["world"]["kind"],
                          [(_opname(op), sorted(op["call"].get("kw", {})), (op.get("fault") or {}).get("kind"))
-                          for op in spec["ops"]], per_step, outcomes], 12)
+                          for op in spec["ops"]], per_step, outcomes, spec.get("warn")], 12)
     return shape, (shared > 0 or has_fault), shared
 
 
@@ -1025,6 +1046,10 @@ def minimise(spec, fingerprint):
             del t["ops"][i]
             if t["ops"]:
                 yield t
+        if s.get("warn"):
+            t = copy.deepcopy(s)
+            del t["warn"]
+            yield t
         for i, op in enumerate(s["ops"]):
             if op.get("fault") and op["fault"].get("kind") == "inject":
                 t = copy.deepcopy(s)
@@ -1060,6 +1085,12 @@ def canary_outcomes(ncan=10):
             w = build_world(spec["world"])
             o, _, _ = run_op(w, op["call"])
             row.append([_opname(op), core.digest(o)])
+            if j % 2 == 0:
+                # the same operation with xgcm's warnings escalated to exceptions (state that only decides whether a
+                # warning is issued is invisible otherwise)
+                w = build_world(spec["world"])
+                o, _, _ = run_op(w, op["call"], warn="error")
+                row.append([_opname(op) + "[warnings-as-errors]", core.digest(o)])
         outs.append(row)
     return outs
 
@@ -1150,6 +1181,7 @@ RULE = (
     "calls that must be refused (unknown variable / axis), arguments referenced by world index so objects are shared "
     "across steps; dataset variables and index coordinates carry attributes, some arrays are anonymous, face tables "
     "are partly sparse and may lack a third grid axis. Faults: ill-posed edit of a valid call, raising user function, "
+    "warnings attributed to xgcm escalated to exceptions for a whole history (12% of the histories; as under -W error), "
     "InjectedFault(BaseException) raised by a sys.settrace hook at a line event inside xgcm/*.py - uniformly in 1..T "
     "(T = line events of the same op in its fresh run) or, when the fresh counting run saw the world transiently "
     "modified at some line events, at one of those with probability 0.8. After every step: world snapshot == pristine snapshot "
